@@ -374,57 +374,72 @@ def run(rep):
         raise AnalysisError(f"{cfile}: c_delineate_flowpathlengths_in_catchment: downstream walk not found")
     walk = walk[0]
     wparts = loop_parts(walk)
-    ortho = "abs(idxcell_down[0]-idxcell_up[0]) == 1 || abs(idxcell_down[0]-idxcell_up[0]) == ncols"
-    ortho2 = "abs(idxcell_up[0]-idxcell_down[0]) == 1 || abs(idxcell_up[0]-idxcell_down[0]) == ncols"
-
-    def length_steps(stmts, label, need_guard=None):
-        """per path through stmts: (is orthogonal?, increment of length) -> all orthogonal paths add 1, all others sqrt(2)"""
-        good, seen = True, 0
-        detl = []
-        for orth in (True, False):
-            def oracle(c, orth=orth):
-                if c[0] in ('and', 'or', 'not'):
-                    if cq.same_cond(c, ortho, True) or cq.same_cond(c, ortho2, True):
-                        return orth
-                    from .c03 import _bool
-                    return _bool(c, oracle)
-                if c[0] == 'cmp' and c[1] == '==' and 'abs(' in show(c):
-                    # one of the two disjuncts: decided by the enclosing disjunction only
-                    return None
-                return None
-            ce = CEval(oracle)
-            ce.summarise_loops = True
+    def length_steps(stmts, label):
+        """every step between 8-neighbours adds 1 when the cells share a row or a column and sqrt(2) otherwise.  The paths through
+        `stmts` are enumerated symbolically; which path a step takes is then decided by evaluating the recorded conditions on the finite
+        domain ncols in 1..6 x every in-grid position x the 8 offsets.  |down - up| = |dx + ncols dy| takes the pairwise distinct values
+        1, ncols-1, ncols, ncols+1 for ncols >= 3, so ncols = 3..6 stand for every wider grid; ncols = 1 and 2 are the special cases."""
+        ce = CEval(lambda c: False if ("ierr" in show(c) or "c_downstream" in show(c)) else None)
+        ce.summarise_loops = True
+        try:
+            ce.run(stmts, {"length": ('sym', 'L0')})
+        except Undecided as ex:
+            return None, str(ex)
+        alts = []
+        for env, conds, how in ce.finals:
+            if how == "return" or "length" not in env:
+                continue
+            cnl = Canon()
             try:
-                ce.run(stmts, {"length": ('sym', 'L0')})
+                inc = cnl.ratio(env["length"]) - Ratio.sym('L0')
             except Undecided as ex:
                 return None, str(ex)
-            for env, conds, how in ce.finals:
-                if "length" not in env:
-                    continue
-                cnl = Canon()
-                try:
-                    inc = cnl.ratio(env["length"]) - Ratio.sym('L0')
-                except Undecided as ex:
-                    return None, str(ex)
-                if inc.is_zero() or 'L0' not in cnl.ratio(env["length"]).symbols():
-                    continue          # untouched, or reset to a constant (walk left the grid): not a step
-                # paths on which the orthogonality test was never evaluated do not count
-                txt = " ".join(show(c) for c, _ in conds)
-                seen += 1
-                want = Ratio.const(1) if orth else cnl.ratio(cq.parse("sqrt(2)"))
-                if inc != want:
-                    good = False
-                detl.append(f"{'orthogonal' if orth else 'diagonal'}: length += {inc}")
-        return (good and seen >= 2), "; ".join(detl)
+            if 'L0' not in cnl.ratio(env["length"]).symbols():
+                inc = None                 # reset to a constant (walk left the grid)
+            alts.append((conds, inc, cnl))
+        if not alts:
+            return None, "no path updates the length"
+        bad, ncase = [], 0
+        for ncols in range(1, 7):
+            for r in range(0, 3):
+                for c in range(0, ncols):
+                    for dy in (-1, 0, 1):
+                        for dx in (-1, 0, 1):
+                            if (dx, dy) == (0, 0) or not (0 <= c + dx < ncols) or not (0 <= r + dy < 3):
+                                continue
+                            up, down = r * ncols + c, (r + dy) * ncols + (c + dx)
+                            envv = {"ncols": ncols, "nrows": 3, "idxcell_up[0]": up, "idxcell_down[0]": down}
+                            live = []
+                            for conds, inc, cnl in alts:
+                                ok = True
+                                for cnd, t in conds:
+                                    v = cq.int_eval(cnd, envv)
+                                    if v is None:
+                                        continue           # a test that does not depend on the geometry of the step
+                                    if bool(v) != t:
+                                        ok = False
+                                if ok:
+                                    live.append((inc, cnl))
+                            incs = [(i_, cn_) for i_, cn_ in live if i_ is not None and not i_.is_zero()]
+                            if not incs:
+                                continue
+                            ncase += 1
+                            ortho = dx == 0 or dy == 0
+                            for i_, cn_ in incs:
+                                want = Ratio.const(1) if ortho else cn_.ratio(cq.parse("sqrt(2)"))
+                                if i_ != want:
+                                    bad.append(f"ncols={ncols}, step ({dx},{dy}) from cell {up} to {down}: length += {i_}, expected {'1' if ortho else 'sqrt(2)'}")
+        if ncase < 40:
+            return None, f"only {ncase} geometric cases reached a length update"
+        return (not bad), ("; ".join(bad[:3]) + (f" ... {len(bad)} cases" if len(bad) > 3 else "")) if bad else f"{ncase} (ncols, position, offset) cases"
     ok1, d1 = length_steps(body_stmts(wparts[3]), "walk")
     post = fstm[fstm.index(walk) + 1:]
-    # after the walk: the last step into the outlet (length reset paths are zero increments and do not count)
     ok2, d2 = length_steps(post, "last step")
     if ok1 is None or ok2 is None:
         rep.undecided("R06.e", cfile, "c_delineate_flowpathlengths_in_catchment", "step lengths", f"{d1} / {d2}", line=fp["line"])
     else:
-        rep.check(ok1, "R06.e", cfile, "c_delineate_flowpathlengths_in_catchment", "walk step: length grows by 1 for a step of 1 or ncols cells, by sqrt(2) otherwise", d1, line=walk.get("_line"))
-        rep.check(ok2, "R06.e", cfile, "c_delineate_flowpathlengths_in_catchment", "last step into the outlet: same lengths as the walk step (1 for 1 or ncols cells, else sqrt(2))", d2, line=walk.get("_line"))
+        rep.check(ok1, "R06.e", cfile, "c_delineate_flowpathlengths_in_catchment", "walk step: length grows by 1 when the two cells share a row or a column, by sqrt(2) otherwise (every grid width)", d1, line=walk.get("_line"))
+        rep.check(ok2, "R06.e", cfile, "c_delineate_flowpathlengths_in_catchment", "last step into the outlet: same lengths as the walk step", d2, line=walk.get("_line"))
     # cap of the walk and its stops
     capv = None
     for c_ in cq._conj(wparts[1]):
